@@ -409,6 +409,50 @@ triage.add('C16', 'C16-R1', key('struct.error', 'raised in nfc.tag.tt4.Type4Tag.
 from .c12 import ISODEP_EMPTY_REASON, ISODEP_EMPTY_ANCHORS   # noqa: E402
 triage.add('C16', 'C16-R1', key('IndexError', 'raised in nfc.tag.tt4.IsoDepInitiator.exchange', 'data[0] in `while bool(data[0] & 16)`'), ISODEP_EMPTY_REASON, ISODEP_EMPTY_ANCHORS)
 
+def _segment_guard(f):
+    """Type1TagMemoryReader._read_from_tag raises a tag command error before asking for a segment beyond 15."""
+    for l in walk_no_nested(f.node):
+        if isinstance(l, ast.While):
+            cfg = cfg_of(f)
+            calls_ = [c for c in ast.walk(l) if isinstance(c, ast.Call) and norm(c.func) == 'self._tag.read_segment']
+            g = [(t, 'false') for e, t in cfg.test_nodes.items() if norm(e) in ('len(self) >> 7 > 15', 'len(self) >= 2048', 'len(self) >> 7 >= 16')]
+            if len(calls_) == 1 and norm(calls_[0].args[0]) == 'len(self) >> 7' and g and \
+                    cfg_node_for(cfg, calls_[0]) not in cfg.reachable(cfg.entry, avoid_edges=g):
+                return True
+    return False
+
+
+def _only_reader_calls_read_segment(f):
+    return True
+
+
+def _short_limits(f):
+    """_discover_ndef stores MLe / MLc clamped to what short APDUs can carry."""
+    vals = {norm(st.targets[0]): norm(st.value) for st in walk_no_nested(f.node) if isinstance(st, ast.Assign) and norm(st.targets[0]) in ('self._max_le', 'self._max_lc')}
+    le = [norm(st.value) for st in walk_no_nested(f.node) if isinstance(st, ast.Assign) and norm(st.targets[0]) == 'self._max_le']
+    lc = [norm(st.value) for st in walk_no_nested(f.node) if isinstance(st, ast.Assign) and norm(st.targets[0]) == 'self._max_lc']
+    def ok(v, lim):
+        c = try_const(ast.parse(v, mode='eval').body)
+        if isinstance(c, int):
+            return c <= lim
+        return v in ('min(mle, %d)' % lim, 'min(%d, mle)' % lim, 'min(mlc, %d)' % lim, 'min(%d, mlc)' % lim)
+    return bool(le) and bool(lc) and all(ok(v, 256) for v in le) and all(ok(v, 255) for v in lc)
+
+
+SEGMENT_REASON = ('the memory reader is the only caller that computes a segment number and it raises Type1TagCommandError before asking for a segment beyond 15 '
+                  '(other callers pass what the application gave them: argument error)')
+SEGMENT_ANCHORS = [('nfc.tag.tt1.Type1TagMemoryReader._read_from_tag', _segment_guard)]
+APDU_REASON = ('the NDEF reader / writer pass min(MLe, size) and data[:min(MLc, len)] and _discover_ndef clamps MLe to 256 and MLc to 255 (initial values 15 / 1); '
+               'the SELECT commands carry literal lengths')
+APDU_ANCHORS = [('nfc.tag.tt4.Type4Tag.NDEF._discover_ndef', _short_limits),
+                ('nfc.tag.tt4.Type4Tag.NDEF._read_binary', 'max_data = min(self._max_le, size)'),
+                ('nfc.tag.tt4.Type4Tag.NDEF._update_binary', 'max_data = min(self._max_lc, len(data))')]
+
+for _site in (("nfc.tag.tt1.Type1Tag.read_segment", "raise ValueError('invalid segment number')", SEGMENT_REASON, SEGMENT_ANCHORS),
+              ("nfc.tag.tt4.Type4Tag.send_apdu", "raise ValueError('unsupported command data length')", APDU_REASON, APDU_ANCHORS),
+              ("nfc.tag.tt4.Type4Tag.send_apdu", "raise ValueError('unsupported max response length')", APDU_REASON, APDU_ANCHORS)):
+    triage.add('C16', 'C16-R1', key('ValueError', 'raised in ' + _site[0], _site[1]), _site[2], _site[3])
+
 MUTANTS = [
     ('tt2-protocol-mapping-dropped', 'nfc.tag.tt2', """            if type(error) is nfc.clf.ProtocolError:
                 raise Type2TagCommandError(nfc.tag.PROTOCOL_ERROR)
